@@ -191,6 +191,30 @@ class Index:
                 name = self.funcs[q].name
                 if not any(isinstance(n, (ast.Name, ast.Attribute)) and (getattr(n, "id", None) == name or getattr(n, "attr", None) == name) for n in ast.walk(self.funcs[wq].node)):
                     del self.funcs[q]
+        # helpers that have been read into every caller: functions the rules do not know by name that no normal form refers to any more
+        # (rules that judge every function on its own skip them: what they do is judged where it happens, in the caller)
+        self.absorbed = set()
+        if inline:
+            referenced = set()
+            for q, f in self.funcs.items():
+                if q != f.qual:
+                    continue
+                for n in ast.walk(f.node):
+                    if isinstance(n, ast.Name):
+                        r = self.resolve_name(f.mod, n.id)
+                        if r in self.funcs and self.funcs[r].qual != f.qual:
+                            referenced.add(self.funcs[r].qual)
+                    elif isinstance(n, ast.Attribute):
+                        for q2, g in self.funcs.items():
+                            if g.cls and g.name == n.attr and q2 != f.qual:
+                                referenced.add(g.qual)
+            for q, f in self.funcs.items():
+                if q == f.qual and q not in self.known and q not in referenced and f.name.startswith("_") and not f.name.startswith("__"):
+                    # only private helpers (a public function may be called from outside the package)
+                    callers = [g for q2, g in self.funcs.items() if q2 == g.qual and g.qual != q and any(
+                        (isinstance(n, ast.Name) and n.id == f.name) or (isinstance(n, ast.Attribute) and n.attr == f.name) for n in ast.walk(getattr(g, "orig", None) or g.node))]
+                    if callers:
+                        self.absorbed.add(q)
         # program order of the (normalised) trees: line numbers of inlined code point into the helper, so "A comes before B" is asked of
         # the position in the tree, never of line numbers
         for q, f in self.funcs.items():
